@@ -6,7 +6,7 @@ VERIF = os.path.dirname(os.path.dirname(os.path.abspath(__file__)))
 CHECKS = {
  "C01": dict(cat="exploration", design="DESIGN.md §4 C01",
    technique="stateful model-based property testing (rapid) against a sorted-map model; small-scope exhaustive enumeration in the thorough tier",
-   text="Generated histories (insert/update/delete/lookup/iterate/clone/persist/reload, every key and value type, bf 2-64, both formats, all cache kinds) are applied to mast and to a sorted-map model and compared after every step; thorough adds every insert/delete word of length <=5 over 4 user keys x 81 layer tables. Held-on-everything-explored, not a proof.",
+   text="Generated histories (insert/update/delete/lookup/iterate/clone/persist/reload, every key and value type, bf 2-64, both formats, all cache kinds) are applied to mast and to a sorted-map model and compared after every step; thorough adds every insert/delete word of length <=5 over 4 user keys x 81 layer tables. Held-on-everything-explored, not a proof. One configuration in ten has a dense key universe of 150-900 keys with bulk inserts/deletes (height 2 at the default branch factor 16, up to 6 at bf 3).",
    note="Trusted: Go stdlib (encoding/json as the configured default marshaler), rapid, the harness' own model. Nil keys/values not generated."),
 
  "C02": dict(cat="exploration", design="DESIGN.md §4 C02",
@@ -23,11 +23,11 @@ CHECKS = {
    note="Only types whose encoding round-trips are generated (the property's own restriction)."),
  "C06": dict(cat="exploration", design="DESIGN.md §4 C06",
    technique="model-based differential property testing: DiffIter / StartDiff+NextEntry vs. the difference of two model maps",
-   text="Ordered pairs of trees (derived by clone/reload + ops, unrelated, identical, empty/emptied, nil old; in memory / persisted / reloaded) are diffed through both interfaces and compared with the model difference (keys, order, kinds, old/new values, once each), including early stop by false / by error at a generated index and read-onlyness.",
+   text="Ordered pairs of trees (derived by clone/reload + ops, unrelated, identical, empty/emptied, nil old; in memory / persisted / reloaded) are diffed through both interfaces and compared with the model difference (keys, order, kinds, old/new values, once each), including early stop by false / by error at a generated index and read-onlyness. A one-sided report must carry no value for the absent side; callbacks also fail with mast.ErrNoMoreDiffs / a wrapper of it / mast.ErrIterDone; a third of the cases run after an abandoned diff.",
    note="Both trees share one configuration (precondition of the property)."),
  "C07": dict(cat="exploration", design="DESIGN.md §4 C07",
    technique="property testing with node-set oracle from a recording store + replica round-trip",
-   text="For generated ordered pairs of persisted versions the DiffLinks callbacks are compared with the node sets reachable from each root (new\\old subset added subset new, symmetric for removed, once each, names only) and a replica seeded with old + added must load the new version completely.",
+   text="For generated ordered pairs of persisted versions the DiffLinks callbacks are compared with the node sets reachable from each root (new\\old subset added subset new, symmetric for removed, once each, names only) and a replica seeded with old + added must load the new version completely. A third of the cases run after another diff was stopped or failed part-way.",
    note="Versions whose roots are incomplete abort the case (C03's subject)."),
  "C08": dict(cat="exploration", design="DESIGN.md §4 C08",
    technique="property testing over every Store call with an independent hash and codec (decode/re-encode round-trip)",
@@ -39,7 +39,7 @@ CHECKS = {
    note="Validator and decoders are the harness' own."),
  "C10": dict(cat="exploration", design="DESIGN.md §4 C10",
    technique="model-based property testing: cursor walks and SeekIter vs. an index into the sorted model keys",
-   text="On generated trees (any residency) cursors start at Min / Max / Ceil(probe of any layer, present or absent) and follow generated Forward/Backward words; Get must equal the model entry at the tracked index or report no entry off the ends; SeekIter(probe) with optional ErrIterDone must yield exactly the entries >= probe.",
+   text="On generated trees (any residency) cursors start at Min / Max / Ceil(probe of any layer, present or absent) and follow generated Forward/Backward words; Get must equal the model entry at the tracked index or report no entry off the ends; SeekIter(probe) with optional ErrIterDone must yield exactly the entries >= probe. On empty trees every step of the walk is still issued (no call may panic, never an entry).",
    note="Ceil only on a fresh cursor; nothing asserted after stepping off an end."),
  "C13": dict(cat="exploration", design="DESIGN.md §4 C13",
    technique="property testing with a recording store: Store calls of every MakeRoot vs. node sets and key ranges of the previous and new version",
@@ -47,36 +47,36 @@ CHECKS = {
    note="Key ranges taken closed; only the stated direction of IsDirty is asserted."),
  "C15": dict(cat="exploration", design="DESIGN.md §4 C15",
    technique="property testing of a cost bound: distinct Persist.Load names per diff call vs. 2D+2 from the reference node sets",
-   text="DiffIter and DiffLinks on freshly opened, cache-less trees may load at most 2D+2 distinct nodes (D = symmetric difference of the reachable node sets) and none for identical versions; generated pairs plus enumerated large trees (up to 3000 / 60000 keys) differing in 1-5 keys.",
+   text="DiffIter and DiffLinks on freshly opened, cache-less trees may load at most 2D+2 distinct nodes (D = symmetric difference of the reachable node sets) and none for identical versions; generated pairs plus enumerated large trees (up to 3000 / 60000 keys) differing in 1-5 keys. Also with the new version opened through a second handle of the same store that reports another NodeURLPrefix, through cold caches, and through the writer's warm cache.",
    note="Loads counted on a recording store without cache."),
 
  "C03": dict(cat="fault_enumeration", design="DESIGN.md §4 C03",
    technique="fault injection + harness-owned completion order (gated Persist) in generated flush scenarios; enumeration of every single failing Store position",
-   text="MakeRoot runs against a gated store that assigns each arriving Store call a generated fate (delay class, straggler held until MakeRoot has returned or 5 ms, failure); on success an atomic in-flight counter must be zero at return and every node reachable from the returned root must be in the store under the name of its own bytes; any failed Store must surface as an error, the tree must stay usable and a retry must produce a complete root; every single failing arrival position is enumerated for flushes of <=12 writes; a second store with another prefix shares the cache.",
+   text="MakeRoot runs against a gated store that assigns each arriving Store call a generated fate (delay class, straggler held until MakeRoot has returned or 5 ms, failure); on success an atomic in-flight counter must be zero at return and every node reachable from the returned root must be in the store under the name of its own bytes; any failed Store must surface as an error, the tree must stay usable and a retry must produce a complete root; every single failing arrival position is enumerated for flushes of <=12 writes; a second store with another prefix shares the cache. Likewise two of the library's own in-memory stores behind one cache.",
    note="No timing enters a verdict; completion orders are sampled through delays, not enumerated."),
  "C11": dict(cat="exploration", design="DESIGN.md §4 C11",
    technique="randomised concurrent programs under the Go race detector (-race build), frozen lock-free shared environment + real ARC cache environment, per-goroutine model oracle",
-   text="2-8 goroutines each own a tree (loaded from shared roots, cloned, or fresh) and run generated programs; in the frozen environment all shared base nodes sit in maps that are never written and are read without locks, with per-tree private overlays, so any write to a shared node is reported by the happens-before race detector regardless of schedule; the real environment shares mast's ARC cache and in-memory store. Violation = a DATA RACE report (process halts, the case was written beforehand) or a tree deviating from its own model.",
+   text="2-8 goroutines each own a tree (loaded from shared roots, cloned, or fresh) and run generated programs; in the frozen environment all shared base nodes sit in maps that are never written and are read without locks, with per-tree private overlays, so any write to a shared node is reported by the happens-before race detector regardless of schedule; the real environment shares mast's ARC cache and in-memory store. Violation = a DATA RACE report (process halts, the case was written beforehand) or a tree deviating from its own model. A further 'isolation' environment ends one tree's in-flight read with that tree's own cancellation or a one-off error while a second tree reads the same nodes: the second tree must be unaffected.",
    note="Schedules are sampled, not enumerated; a race cannot be shrunk, the replay is the whole case."),
  "C12": dict(cat="fault_enumeration", design="DESIGN.md §4 C12",
    technique="exhaustive single-fault enumeration per generated (tree, operation): every Load / KeyCompare / Marshal call position, plus generated pairs",
-   text="A fault-free dry run counts the fallible callbacks of one operation on a deterministically rebuilt tree; every position is then failed in turn (tree rebuilt each time); when the call returns an error the tree must equal its pre-state (Size, Height, contents) and the retried call must give the normal result and post-state. Two open known findings (Insert growth phase, Delete shrink loop) are excluded by their error call site and reported as KNOWN-FINDING.",
+   text="A fault-free dry run counts the fallible callbacks of one operation on a deterministically rebuilt tree; every position is then failed in turn (tree rebuilt each time); when the call returns an error the tree must equal its pre-state (Size, Height, contents) and the retried call must give the normal result and post-state. Two open known findings (Insert growth phase, Delete shrink loop) are excluded by their error call site and reported as KNOWN-FINDING. Each exclusion additionally requires the finding's own precondition (size at the growth threshold / shrink actually due), computed from the model.",
    note="Calls that swallow a fault or panic under fault are outside the statement: counted, not judged."),
  "C14": dict(cat="exploration", design="DESIGN.md §4 C14",
    technique="golden reference vectors frozen from the pinned commit + differential property testing against an independent re-implementation of layer, order, hash and encoders",
    text="golden/vectors.json (names, defaults, 6x877 layers, 1172 comparisons, 294 persisted trees with every node's bytes) is re-derived from the tree under test on every run and the frozen bytes must load with the expected entries; generated keys of all 13 built-in types and generated pairs are compared with the reference layer function and order.",
    note="'Every release and host' is sampled on this host; the golden file was cross-checked against harness/ref when generated."),
  "C16": dict(cat="exploration", design="DESIGN.md §4 C16",
-   technique="property testing of cost bounds: distinct Persist.Load names per API call on a recording store without cache",
-   text="Persisted trees (generated histories; enumerated large trees of up to 2500/40000 keys) are re-opened cache-less for each probe; LoadMast/Clone/Cursor <= 1 node, Get <= h+1, Insert/Delete at unchanged height <= 2(h+1), and on large trees a single cursor move or a SeekIter stopped at its first entry <= 4(h+1)+4.",
+   technique="property testing of cost bounds: Persist.Load calls per API call on a recording store without cache",
+   text="Persisted trees (generated histories; enumerated large trees of up to 2500/40000 keys) are re-opened cache-less for each probe; LoadMast/Clone/Cursor <= 1 node, Get <= h+1, Insert/Delete at unchanged height <= 2(h+1), and on large trees a single cursor move or a SeekIter stopped at its first entry <= 4(h+1)+4. Clone of an opened-then-modified version <= 1, MakeRoot of one within the sub-linear cap, and a lookup with a key of another type <= h+1. Every Persist.Load call counts (a node read twice is two reads).",
    note="The un-numbered clause is checked with a generous sub-linear cap only where the tree is large enough to tell."),
  "C17": dict(cat="fault_enumeration", design="DESIGN.md §4 C17",
    technique="process-level crash-point enumeration: re-executed child with RLIMIT_FSIZE = cut offset (killed by SIGXFSZ or EFBIG returned), every offset for small payloads",
-   text="file.Persist.Store runs in a child process whose file-size limit is the cut offset: the kernel kills it at that byte (crash) or the write returns an I/O error; afterwards a fresh store must either not find the node or return it complete, success must mean complete, and a later Store must repair. Every offset 0..len is enumerated for 5 payload sizes in both modes; generated larger payloads and repeated cuts.",
+   text="file.Persist.Store runs in a child process whose file-size limit is the cut offset: the kernel kills it at that byte (crash) or the write returns an I/O error; afterwards a fresh store must either not find the node or return it complete, success must mean complete, and a later Store must repair. Every offset 0..len is enumerated for 5 payload sizes in both modes; generated larger payloads and repeated cuts. Further modes: the same store object retries, 2-6 concurrent stores of the node, a context cancelled mid-write, a full file system, and a transient error (limit lifted right after the first failing write).",
    note="Tearing below the write syscall is not modelled."),
  "C18": dict(cat="exploration", design="DESIGN.md §4 C18",
    technique="stateful model-based property testing of the Persist contract across backends with a recording, fault-injecting fake S3 client",
-   text="Programs of store / re-store / concurrent same-name store / load / load-missing (+ injected Put/Get/body failures for S3) over in-memory, file and S3 backends against a name->bytes model; the fake S3 client must hold exactly bucket / prefix+name objects; thorough adds gofakes3 over HTTP.",
+   text="Programs of store / re-store / concurrent same-name store / load / load-missing (+ injected Put/Get/body failures for S3) over in-memory, file and S3 backends against a name->bytes model; the fake S3 client must hold exactly bucket / prefix+name objects; thorough adds gofakes3 over HTTP. File-backend write faults with a retry, S3 bodies that break off, a put that fails after its body was read, and a load whose response is held back across a successful store of the same name.",
    note="A name is always re-written with the same bytes."),
  "C19": dict(cat="exploration", design="DESIGN.md §4 C19",
    technique="mutation-based property testing with an independent classifier oracle (+ native coverage-guided fuzzing of the top-node bytes in the thorough tier)",
